@@ -401,6 +401,103 @@ def fcmp (l r : Tensor String FTok) : String :=
   both s!"eq={eq} sim={sim}"
        s!"eq={tensorEqualityBy FTok.feq l.view r.view} sim={tensorSimilarityBy FTok.feq l.view r.view}"
 
+/-! ### "transformation then consumer" (`chain`) -/
+
+def parseStepTok (tok : String) : Option (InPlace String Nat) :=
+  match tok.splitOn ":" with
+  | [] => none
+  | op :: args =>
+    let arg := ":".intercalate args
+    if op = "reorder" then some (.reorder (parseNames arg))
+    else if op = "transpose" then some (.transpose (parseNames arg))
+    else if op = "rename" then some (.rename (parseNames arg))
+    else if op = "reshape" then (parseShape arg).map .reshape
+    else if op = "map" then some (.map mapF)
+    else if op = "mapi" then some (.mapi mapiF)
+    else none
+
+def parseSteps (s : String) : Option (List (InPlace String Nat)) :=
+  if s = "-" then some [] else (s.splitOn "/").mapM parseStepTok
+
+/-- the specification of one in-place step on a tensor value -/
+def specStep (v : Spec.TVal String Nat) : InPlace String Nat → Option (Spec.TVal String Nat)
+  | .reorder names =>
+    if decide (Spec.IsOrdering v.shape names) then
+      some (Spec.materialise (Spec.reordered (Spec.ofData v.shape v.elems) names)) else none
+  | .transpose names =>
+    if decide (Spec.IsOrdering v.shape names) then
+      some (Spec.materialise (Spec.transposed (Spec.ofData v.shape v.elems) names)) else none
+  | .reshape s => if decide (Spec.Accepts s v.elems.length) then some ⟨s, v.elems⟩ else none
+  | .rename names =>
+    if decide names.Nodup then
+      some (Spec.materialise (Spec.renamed (Spec.ofData v.shape v.elems) names)) else none
+  | .map f => some ⟨v.shape, v.elems.map f⟩
+  | .mapi f => some (Spec.materialise (Spec.mappedWithIndex f (Spec.ofData v.shape v.elems)))
+
+def specSteps (v : Spec.TVal String Nat) : List (InPlace String Nat) → Option (Spec.TVal String Nat)
+  | [] => some v
+  | st :: rest => match specStep v st with
+    | some v' => specSteps v' rest
+    | none => none
+
+/-- a consumer applied to the result of a history: the specification on the value `v`, the
+    code-shaped model on the tensor `t` -/
+def consumer (cons : String) (v : Spec.TVal String Nat) (t : T) : String :=
+  let lv := Spec.ofData v.shape v.elems
+  let n := v.elems.length
+  let other : List Nat := (List.range n).map (· + 500)
+  let lo := Spec.ofData v.shape other
+  let otherT : T := { data := other, shape := t.shape, strides := t.strides }
+  let withShape := fun (name : String) (k : String → Option String) =>
+    if cons.startsWith (name ++ ":") then k ((cons.drop (name.length + 1)).toString) else none
+  if cons = "zipl" then
+    both (showTVal (Spec.materialise (Spec.zipped (fun _ => zipF) lv lo))) (showOut (t.elementwise zipF otherT.view))
+  else if cons = "zipli" then
+    both (showTVal (Spec.materialise (Spec.zipped zipiF lv lo))) (showOut (t.elementwiseWithIndex zipiF otherT.view))
+  else if cons = "zipr" then
+    both (showTVal (Spec.materialise (Spec.zipped (fun _ => zipF) lo lv))) (showOut (otherT.elementwise zipF t.view))
+  else if cons = "zipri" then
+    both (showTVal (Spec.materialise (Spec.zipped zipiF lo lv))) (showOut (otherT.elementwiseWithIndex zipiF t.view))
+  else if cons = "map" then
+    both (showTVal (Spec.materialise (Spec.mapped mapF lv))) (showT (t.map mapF))
+  else if cons = "mapi" then
+    both (showTVal (Spec.materialise (Spec.mappedWithIndex mapiF lv))) (showT (t.mapWithIndex mapiF))
+  else if cons = "matrix" then
+    both (match v.shape with
+          | [r, c] => s!"rows={r.2} cols={c.2} data={showNats v.elems}"
+          | _ => "bad-op")
+         (match t.intoMatrix with
+          | .ok m => s!"rows={m.rows} cols={m.columns} data={showNats m.data}"
+          | .panic k => s!"panic({k})")
+  else if cons = "iter" then both s!"data={showNats v.elems}" s!"data={showNats t.view.iter}"
+  else if cons = "add" || cons = "add_r" || cons = "add_v" || cons = "add_vr" then
+    both (showVal v.shape (List.zipWith (· + ·) v.elems other))
+         (showOut (t.elementwise (· + ·) otherT.view))
+  else if cons = "display" then "display-ok"
+  else if cons = "eq" then both "true" (toString (tensorEquality t.view
+      ({ data := v.elems, shape := v.shape, strides := computeStrides v.shape } : T).view))
+  else if cons = "first" then
+    both (match v.elems.head? with | some x => toString x | none => panicS) (showOutcome toString t.first)
+  else
+    match withShape "reshape_owned" (fun a => (parseShape a).map fun sh =>
+            both (if decide (Spec.Accepts sh n) then showVal sh v.elems else panicS) (showOut (t.reshapeOwned sh))) with
+    | some r => r
+    | none =>
+      match withShape "reshape_mut" (fun a => (parseShape a).map fun sh =>
+              both (if decide (Spec.Accepts sh n) then showVal sh v.elems else panicS) (showOut (t.reshapeMut sh))) with
+      | some r => r
+      | none => "bad-op"
+
+def chain (t : T) (stepsS : String) (toks : List String) : String :=
+  match parseSteps stepsS, optArg "cons" toks with
+  | some steps, some cons =>
+    match specSteps ⟨t.shape, t.data⟩ steps, t.applyAll steps with
+    | some v, .ok t' => consumer cons v t'
+    | none, .panic _ => panicS
+    | some _, .panic k => s!"{panicS} ## MODEL-SPEC-DISAGREE model panics ({k})"
+    | none, .ok _ => s!"{panicS} ## MODEL-SPEC-DISAGREE model succeeds"
+  | _, _ => "bad-op"
+
 def step (s : State) (toks : List String) : State × String :=
   match toks with
   | ["@", "f", shapeS, dataS] =>
@@ -424,6 +521,10 @@ def step (s : State) (toks : List String) : State × String :=
         both (if decide (Spec.Accepts shape data.length) then "ok" else panicS)
              (if t.isSome then "ok" else panicS))
     | _, _ => (s, "bad-op")
+  | "chain" :: stepsS :: rest =>
+    match s.tensor with
+    | none => (s, "no-tensor")
+    | some t => (s, chain t stepsS rest)
   | _ =>
     match s.tensor with
     | none => (s, "no-tensor")
